@@ -88,6 +88,8 @@ type Exec struct {
 	keySeq  int
 	Log     []string // harness-level observations (vrt.Logf)
 	Data    any      // harness scratch
+	atomic  int
+	eager   []func()
 }
 
 type Options struct {
@@ -226,6 +228,9 @@ func (x *Exec) schedule(from *thread) {
 			x.park(from)
 			return
 		}
+		for _, f := range x.eager {
+			f()
+		}
 		if x.Steps >= x.opts.MaxSteps {
 			x.end("steps")
 			x.park(from)
@@ -267,8 +272,12 @@ func (x *Exec) schedule(from *thread) {
 			x.park(from)
 			return
 		}
+		if x.atomic > 0 && fromEnabled {
+			// harness set-up section: the running thread keeps the processor
+			list = list[:1]
+		}
 		n := len(list)
-		clockAlt := x.opts.ClockDev && haveTimer
+		clockAlt := x.opts.ClockDev && haveTimer && x.atomic == 0
 		if clockAlt {
 			n++
 		}
@@ -638,4 +647,26 @@ func ThreadID() int {
 		return -1
 	}
 	return x.cur.id
+}
+
+// Atomic runs f without offering the processor to other threads at scheduling points the
+// caller can pass (harness set-up sections). Blocking still switches.
+func Atomic(f func()) {
+	x := active.Load()
+	if x == nil {
+		f()
+		return
+	}
+	x.atomic++
+	defer func() { x.atomic-- }()
+	f()
+}
+
+// Eager registers an environment action that runs at every scheduling decision before the
+// enabled set is computed (e.g. a zero-latency consumer draining a channel). It must not
+// block and must not call scheduling operations.
+func Eager(f func()) {
+	if x := active.Load(); x != nil {
+		x.eager = append(x.eager, f)
+	}
 }
